@@ -22,6 +22,9 @@ EXPLANATION = (
 EXPLANATION += (
     " " + "R3 also (completeness of _sift_down): every path that ends without a swap has compared the node with its larger existing child and found it not lower (all simple paths of the function's CFG are enumerated)."
 )
+EXPLANATION += (
+    " " + "R1 also: outside the owners a subscript read of the position map (which creates a missing entry on a C++ unordered_map) needs an established find(); c_push assigns the pushed item's index (insert()/emplace() would keep an old entry)."
+)
 NOT_DECIDED = "Heap order / returned sequence over all operation sequences, and the partition reached by all merge sequences (these need execution or a model)."
 ASSUMPTIONS = ["std::vector / std::unordered_map semantics of push_back, pop_back, erase, operator[]"]
 
@@ -47,6 +50,24 @@ def r1(ctx):
             ok = name in WRITERS
             ctx.ob(fi.qual, "writes:%s" % st.text()[:60], ok, fi.loc(st.stmt), "%s in %s (an owner of the heap/position invariant)" % (st.text()[:60], name) if ok else "%s modifies the heap or the position map outside the four owners (c_push, _swap, c_pop, c_change_score)" % name)
     ctx.require(n >= 12, "fewer than 12 heap/position stores found (%d)" % n)
+    # a look-up is no write: on a C++ unordered_map `positions[k]` CREATES the entry k -> 0 when k is absent, so outside the
+    # owners a subscript read needs an established find(k) != end() (or it plants a stale index 0 for an item not queued)
+    for name, fi in sorted(cls.methods.items()):
+        if name in WRITERS:
+            continue
+        fcfg = None
+        for a in walk_function(fi.node):
+            if isinstance(a, ast.Subscript) and isinstance(a.ctx, ast.Load) and u(a.value) == "self.positions":
+                fcfg = fcfg or ctx.cfg(fi)
+                key = u(a.slice)
+                ga = util.expanded_guard_atoms(fcfg, fi.node, fcfg.node_containing(a))
+                found = any((not pol) and t in ("self.positions.end() == self.positions.find(%s)" % key, "self.positions.find(%s) == self.positions.end()" % key) for t, pol in ga) or any(pol and t in ("0 < self.positions.count(%s)" % key, "self.positions.count(%s)" % key, "0 != self.positions.count(%s)" % key) for t, pol in ga)
+                ctx.ob(fi.qual, "lookup-does-not-create-an-entry:%s" % key, found, fi.loc(a), "positions[%s] is read only after find(%s) succeeded" % (key, key) if found else "%s reads positions[%s] without an established find(): for an item that is not queued this creates the entry %s -> 0, and a later push or swap works with that stale index" % (name, key, key))
+    # ... and the owner that records a pushed item's index overwrites whatever is there (insert()/emplace() keep an old entry)
+    push = cls.methods.get("c_push")
+    if push is not None:
+        ins = [c for c in ctx.prog.calls_in(push.node) if isinstance(c.func, ast.Attribute) and c.func.attr in ("insert", "emplace", "try_emplace") and u(c.func.value) == "self.positions"]
+        ctx.ob(push.qual, "pushed-index-overwrites", not ins, push.loc(ins[0]) if ins else push.loc(), "c_push assigns the index of the pushed item" if not ins else "c_push records the index with %s(), which leaves an existing entry for the item untouched" % ins[0].func.attr)
     # nobody else reaches into the queue
     bad = []
     for fi in ctx.prog.functions.values():
